@@ -198,6 +198,11 @@ func (pdb *pgDb) Get(ctx context.Context, key []byte) ([]byte, error) {
 			err = pdb.stopSingle(ctx)
 			return rr, err
 		}
+		err = rs.Err()
+		if err != nil {
+			pdb.Abort(ctx)
+			return nil, err
+		}
 	}
 
 	query := fmt.Sprintf("SELECT value FROM %s.kv_vise WHERE key = $1", pdb.schema)
@@ -208,8 +213,12 @@ func (pdb *pgDb) Get(ctx context.Context, key []byte) ([]byte, error) {
 	}
 
 	if !rs.Next() {
+		err = rs.Err()
 		rs.Close()
 		pdb.Abort(ctx)
+		if err != nil {
+			return nil, err
+		}
 		return nil, db.NewErrNotFound(key)
 	}
 
